@@ -217,6 +217,10 @@ def lemma_step(su):
     ex = c.and2(ret, -rvl)
     goals += [("step.exit: " + lab, c.implies(ex, l)) for lab, l in S.closed(st, su.rules)]
     goals += [("step.exit: " + lab, c.implies(ex, l)) for lab, l in M.inv_unionfind(st) + M.inv_struct(st, canon=True) + M.inv_no_uprooted(st)]
+    # the state close() leaves behind: loop-head invariant with nothing pending, and not dirty (precondition of the idempotence lemma, C03)
+    goals += [("step.exit-state: " + lab, c.implies(ex, l)) for lab, l in inv_loop(st, None, su.rules)]
+    goals += [("step.exit-state: nothing pending", c.implies(ex, no_pending_defs(d)))]
+    goals += [("step.exit-state: not dirty", c.implies(ex, -lit(I.deref(I.call_fn(su.prog.methods[(sch.model, "is_dirty")], T, [], self_val=m)))))]
     # early return (return true): resumable state = loop-head invariant with no pending definitions
     early = c.and2(ret, rvl)
     goals += [("step.early: " + lab, c.implies(early, l)) for lab, l in inv_loop(st, None, su.rules)]
@@ -239,6 +243,56 @@ def lemma_step(su):
     goals += G.post_goals(st, gh, hom, d, hlen0, hom0, "step: ", require_generated=True)
     cover = [("continue", cont), ("exit", ex), ("early", early), ("hom: a model N and a homomorphism exist while an iteration continues", c.and2(hom0, cont))]
     return ctx, Goal("step", ctx.assumes + [M.conj(pre), -bound], goals, cover)
+
+
+def literal_snapshot(st):
+    """every table cell, representative and length (ages included): used for `nothing changes`"""
+    U = V.CTX.U
+    snap = {"cells": {}, "roots": {}, "len": {}}
+    for rel in st.s.rels.values():
+        for ix in rel.indices:
+            snap["cells"][ix.field] = dict(st.table(ix.field).cells)
+    for t in st.s.types:
+        snap["roots"][t] = [st.root_of(t, i, U) for i in range(U)]
+        snap["len"][t] = st.nelems(t)
+    snap["flag"] = lit(st.o.f["empty_join_is_dirty"])
+    return snap
+
+
+def lemma_idem(su):
+    """C03 (idempotence): close() on a model as close() leaves it -- loop-head invariant, nothing pending, not dirty --
+    returns in its first iteration and changes no table, no representative and allocates nothing"""
+    ctx, I, sch = su.fresh()
+    c = ctx.c
+    U = ctx.U
+    m = M.arbitrary_state(I, sch, uprooted_slots=0)
+    st = M.State(sch, m)
+    empty_delta = StructV("ModelDelta", {n: VecL() for n in sch.delta_fields})
+    pre = inv_loop(st, empty_delta, su.rules)
+    dirty0 = lit(I.deref(I.call_fn(su.prog.methods[(sch.model, "is_dirty")], T, [], self_val=m)))
+    snap0 = literal_snapshot(st)
+    nconds = [0]
+
+    def cond(I_, g, args):
+        nconds[0] += 1
+        return mkbool(F)           # close() = close_until(|_| false)
+    ret0, rv0 = run_prologue(I, sch, m, cond)
+    d = StructV("ModelDelta", {n: VecL() for n in sch.delta_fields})
+    ret, rv = run_loop_iteration(I, sch, m, d, cond)
+    panic, bound, compact = events_split(ctx)
+    snap1 = literal_snapshot(st)
+    goals = [("idem: close() returns in its first iteration", c.and2(ret, -(lit(rv) if ret != F else F)))]
+    for fld, cells0 in snap0["cells"].items():
+        cells1 = snap1["cells"][fld]
+        for t in sorted(set(cells0) | set(cells1)):
+            goals.append(("idem: table %s%s unchanged" % (fld, list(t)), c.iff(cells0.get(t, F), cells1.get(t, F))))
+    for t in sch.types:
+        goals.append(("idem: no %s element is allocated" % t, V.int_eq(snap1["len"][t], snap0["len"][t])))
+        for i in range(U):
+            goals.append(("idem: representative of %s[%d] unchanged" % (t, i), c.implies(V.int_lt(i, snap0["len"][t]), V.int_eq(snap1["roots"][t][i], snap0["roots"][t][i]))))
+    goals += [("idem: no panic: " + msg, -g) for msg, g in panic]
+    goals += [("idem: compaction-bound: " + msg, -g) for msg, g in compact]
+    return ctx, Goal("idem", ctx.assumes + [M.conj(pre), -dirty0, -bound], goals, [])
 
 
 def inv_stale_listed(st):
@@ -435,6 +489,7 @@ def all_lemmas(su):
     for name, _ in public_mutators(su, sch):
         out.append(("api." + name, (lambda n: (lambda: lemma_api(su, n)))(name)))
         out.append(("effects." + name, (lambda n: (lambda: lemma_api_effects(su, n)))(name)))
+    out.append(("idem", lambda: lemma_idem(su)))
     out.append(("queries", lambda: lemma_queries(su)))
     if enum_types(su, sch):
         out.append(("enum", lambda: lemma_enum(su)))
